@@ -38,7 +38,13 @@ for rel in range(4):
     for b in range(16):
         for a in range(16):
             sc = a + 16 * b + 256 * rel
-            if rel >= 2:
+            if rel == 2:
+                # tiny sessions: rename x {remove, clunk} costs minutes (thorough only)
+                t.append(sc)
+                if not (a in (5, 6) and b in (8, 9)):
+                    q.append(sc)
+                continue
+            if rel == 3:
                 q.append(sc); t.append(sc)
                 continue
             if not slow(a, b):
@@ -49,5 +55,17 @@ for h in d.get('C16', {}).get('harnesses', []):
     if h['fn'] == 'VerifH_C16_Pairs':
         h['quick_scenarios'] = q
         h['thorough_scenarios'] = t
+# C05: lifecycle under concurrency = the tiny sessions that are declared (A in dirops, B in fidops)
+q5, t5 = [], []
+for b_ in (2, 7, 8, 9, 12, 14):
+    for a_ in (0, 3, 4, 5, 6, 15):
+        sc = a_ + 16 * b_ + 512
+        t5.append(sc)
+        if not (a_ in (5, 6) and b_ in (8, 9)):
+            q5.append(sc)
+for h in d.get('C05', {}).get('harnesses', []):
+    if h['fn'] == 'VerifH_C16_Pairs':
+        h['quick_scenarios'] = q5
+        h['thorough_scenarios'] = t5
 json.dump(d, open(p, 'w'), indent=1)
 print('C07 quick %d thorough %d; C16 quick %d thorough %d' % (len(c07_quick), len(c07_thorough), len(q), len(t)))
